@@ -470,6 +470,8 @@ def main(argv):
             jobs = []
             for g in prop.get("gens", []):
                 n = g["thorough"] if thorough else g["quick"]
+                if n <= 0:
+                    continue
                 seeds = [seed] if not thorough else [seed * 1000 + k for k in range(g.get("thorough_seeds", 8))]
                 per = max(1, n // len(seeds))
                 for sd in seeds:
@@ -560,6 +562,8 @@ def main(argv):
         for v in rep[:3]:
             print(f"  {v['kind']}: {v['why']}\n    case: {v['case'][:300]}\n    real:  {v['go'][:300]}\n    model: {v['model'][:300]}\n    spec:  {v['spec'][:300]}", file=sys.stderr)
 
+    if thorough and prop.get("exhaustive_subruns"):
+        cov["exhaustive_subruns"] = prop["exhaustive_subruns"]
     cov["distinct_nontrivial"] = len(nontrivial)
     cov["rule"] = prop.get("rule", "")
     cov["samples"] = samples or [{"note": "no cases generated"}]
